@@ -246,17 +246,24 @@ func withNoise(r *hx.Run, ws []wr) []wr {
 
 func asTxs(r *hx.Run, ws []wr, junk bool) string {
 	var parts []string
+	open := false // the current transaction already holds writes
 	for _, w := range ws {
 		if junk && r.Rng.Chance(1, 4) {
-			// a failed transaction with arbitrary writes
+			// a failed transaction with arbitrary writes (the transaction in progress is closed first)
+			if open {
+				parts = append(parts, "|")
+				open = false
+			}
 			for j := 0; j <= r.Rng.Intn(3); j++ {
 				parts = append(parts, rndWrite(r).tok())
 			}
 			parts = append(parts, "x")
 		}
 		parts = append(parts, w.tok())
+		open = true
 		if r.Rng.Chance(1, 2) {
 			parts = append(parts, "|")
+			open = false
 		}
 	}
 	parts = append(parts, "|")
